@@ -6,6 +6,7 @@ pub mod plan;
 pub mod profile;
 pub mod reg;
 pub mod rng;
+pub mod scripts;
 pub mod twin;
 pub mod values;
 pub mod world;
@@ -15,6 +16,9 @@ use profile::Profile;
 /// which profiles decide which property, with their share of the run budget
 pub fn profiles(prop: &str) -> Vec<(Box<dyn Profile>, u64)> {
     match prop {
+        "C02" => vec![(Box::new(profile::f1::Dispatch), 1)],
+        "C03" => vec![(Box::new(profile::f1::WireFaults), 1)],
+        "C04" => vec![(Box::new(profile::f1::Misdeliver), 1)],
         "C07" => vec![(Box::new(profile::f3::F3 { prop: "C07" }), 1)],
         "C08" => vec![(Box::new(profile::f3::F3 { prop: "C08" }), 1)],
         "C09" => vec![(Box::new(profile::f3::F3 { prop: "C09" }), 1)],
